@@ -66,9 +66,29 @@ func c20Cfgs() []c20Cfg {
 	return out
 }
 
-func emitC20(c *Ctx, cfg c20Cfg, roots []cid.Cid, ops VL) {
-	in := deferredInput(cfg.target, cfg.v1Given, cfg.o, roots, ops)
-	obs := runDeferredImpl(c.Work, cfg.target, cfg.v1Given, cfg.o, roots, ops)
+// what sits at the output path before the writer is used (path targets): nothing, an empty file, a
+// short file, a file longer than anything the history writes
+var c20PreKinds = []string{"absent", "empty", "shorter", "longer"}
+
+func c20Pre(r *RNG, kind string, longLen int) []byte {
+	switch kind {
+	case "empty":
+		return []byte{}
+	case "shorter":
+		return r.Bytes(1 + r.Intn(40))
+	case "longer":
+		return r.Bytes(longLen)
+	}
+	return nil
+}
+
+func emitC20(c *Ctx, cfg c20Cfg, roots []cid.Cid, ops VL, preKind string, pre []byte) {
+	if cfg.target != 0 {
+		preKind, pre = "n/a-stream", nil
+	}
+	c.Count("path-before:" + preKind)
+	in := deferredInput(cfg.target, cfg.v1Given, cfg.o, roots, ops, pre)
+	obs := runDeferredImpl(c.Work, cfg.target, cfg.v1Given, cfg.o, roots, ops, pre)
 	// non-trivial: a callback was registered, a Put ran before a Close and something came after it
 	nOn, nPut, closeAt, firstPut := 0, 0, -1, -1
 	for i, opv := range ops {
@@ -98,14 +118,22 @@ func emitC20(c *Ctx, cfg c20Cfg, roots []cid.Cid, ops VL) {
 	c.Emit("deferred", in, obs, nOn > 0 && nPut > 0 && firstPut > 0 && len(ops) >= 4)
 }
 
-func c20Exhaustive(c *Ctx, cfg c20Cfg, roots []cid.Cid, opset []Val, n int) {
+// preMode: -1 = rotate through the four kinds of pre-existing file history by history, otherwise the
+// index of the kind to use for every history
+func c20Exhaustive(c *Ctx, r *RNG, cfg c20Cfg, roots []cid.Cid, opset []Val, n int, preMode int) {
 	idx := make([]int, n)
+	count := 0
 	for {
 		ops := make(VL, n)
 		for i, j := range idx {
 			ops[i] = opset[j]
 		}
-		emitC20(c, cfg, roots, ops)
+		kind := c20PreKinds[count%len(c20PreKinds)]
+		if preMode >= 0 {
+			kind = c20PreKinds[preMode]
+		}
+		count++
+		emitC20(c, cfg, roots, ops, kind, c20Pre(r, kind, 1200))
 		c.Count(fmt.Sprintf("exhaustive:len%d", n))
 		i := n - 1
 		for i >= 0 {
@@ -140,7 +168,9 @@ func c20Example(c *Ctx) {
 		VL{VT("put"), k(k1), VB([]byte{1})}, VL{VT("has"), k(k1)}, VL{VT("close")},
 	}
 	c.Count("history:coq-example")
-	emitC20(c, c20Cfg{target: 1, o: defaultWOpts}, []cid.Cid{k1}, ops)
+	emitC20(c, c20Cfg{target: 1, o: defaultWOpts}, []cid.Cid{k1}, ops, "absent", nil)
+	// the same history on a path where a 500-byte file already sits (Example C20_example_overwrites_longer_file)
+	emitC20(c, c20Cfg{target: 0, o: defaultWOpts}, []cid.Cid{k1}, ops, "longer", make([]byte, 500))
 }
 
 func init() {
@@ -157,7 +187,14 @@ func init() {
 				n = 5
 			}
 			for _, cfg := range cfgs {
-				c20Exhaustive(c, cfg, roots, opset, n)
+				// the kind of pre-existing file rotates history by history ...
+				c20Exhaustive(c, r, cfg, roots, opset, n, -1)
+				// ... and every history of length 2 (3 in the thorough tier) meets all four kinds
+				if cfg.target == 0 {
+					for pm := range c20PreKinds {
+						c20Exhaustive(c, r, cfg, roots, opset, n-2, pm)
+					}
+				}
 			}
 		}
 		// (1b) the history of the Coq Examples C20_example_* (proofs/DeferredFacts.v)
@@ -195,7 +232,8 @@ func init() {
 				}
 			}
 			c.Count("history:random")
-			emitC20(c, cfg, roots, ops)
+			kind := pick(r, c20PreKinds)
+			emitC20(c, cfg, roots, ops, kind, c20Pre(r, kind, 2500+int(o.dpad)+int(o.ipad)))
 		}
 	})
 }
